@@ -117,10 +117,11 @@ impl<F> Receiving<F> {
                 *self = Self::Rcvd(frame);
             }
             Self::Waiting(waker) => {
-                waker.wake();
                 *self = Self::Rcvd(frame);
+                waker.wake();
             }
-            _ => (),
+            // already received, read or reset: keep that state (`take` left `Pending` behind)
+            other => *self = other,
         }
     }
 
